@@ -344,6 +344,8 @@ bool active() noexcept { return g.on && tl_self != nullptr; }
 bool in_dry_run() noexcept { return g.dry; }
 int current_thread() noexcept { return tl_self ? tl_self->id : -1; }
 long long steps_so_far() noexcept { return g.steps; }
+int thread_count() noexcept { return (int)g.th.size(); }
+int live_threads() noexcept { int n = 0; for (auto* t : g.th) if (t->st != ThreadRec::Finished) n++; return n; }
 
 void point(Op op, const void* addr) noexcept {
   if (!active()) return;
